@@ -330,11 +330,22 @@ func runC20(w *mc.Worker) {
 			})
 		})
 	})
-	metaVals := []string{"1/1", "0/1", "100%", "0%", "3/6", "1/3", "12.050%", "0", "-1", "007", "9223372036854775807", "[ USD 0 ]", "[ EUR/2 -1 ]", "\"\"", "\"a\\\"b\"", "\"héllo // €\"", "@a:b", "@world", "USD", "EUR/2"}
+	metaVals := []string{"1/1", "0/1", "100%", "0%", "3/6", "1/3", "12.050%", "0", "-1", "007", "9223372036854775807", "[ USD 0 ]", "[ EUR/2 -1 ]", "\"\"", "\"a\\\"b\"", "\"héllo // €\"", "@a:b", "@world", "USD", "EUR/2", "\"x\\u0026y \\u003c \\u003e\"", "\"a & b < c > d\""}
 	w.Stage("run-values", fmt.Sprintf("`numscript run` on scripts writing each of %d literal values of the six types (whole and reducible portions, zero / negative / largest numbers, empty and quoted strings) to transaction and account metadata x 3 channels", len(metaVals)), func() {
 		w.Outer("run-values/value", 0, func(o *mc.Explorer) {
 			v := metaVals[o.Choose(len(metaVals))]
 			text := "set_tx_meta ( \"k\" , " + v + " )\nset_account_meta ( @a , \"k\" , " + v + " )\n"
+			if !w.Mine(text) {
+				return
+			}
+			w.Owned()
+			w.Inner(0, func(in *mc.Explorer) { runOne(text, nil, sheets[0], nil, false) })
+		})
+	})
+	w.Stage("run-trailing-comment", "`numscript run` on scripts that end in a line comment, with LF and with CR LF (the comment needs its line end), x 3 channels", func() {
+		texts := []string{"set_tx_meta ( \"k\" , 1 )\n// done\n", "set_tx_meta ( \"k\" , 1 ) // done\n", "set_tx_meta ( \"k\" , 1 )\r\n// done\r\n", "// only a comment\n"}
+		w.Outer("run-trailing-comment/text", 0, func(o *mc.Explorer) {
+			text := texts[o.Choose(len(texts))]
 			if !w.Mine(text) {
 				return
 			}
